@@ -1,13 +1,17 @@
 package sim
 
 import (
+	"bytes"
+	"encoding/json"
 	"fmt"
 	"os"
+	"os/exec"
 	"path/filepath"
 	"sort"
 	"strings"
 	"syscall"
 	"testing"
+	"time"
 )
 
 // C11: no surviving run leaves lock/temp/half-created files; reads modify nothing.
@@ -267,6 +271,39 @@ func (c11) Eval(t *testing.T, c *Case, dec func(int) *Decider) *Outcome {
 		sc.Meta["workload"] = mustJSON(&meta)
 	}
 	resB := run(1, sc)
+	// real-process tier: the same program in the real binary, with SIGINT/SIGTERM/SIGQUIT
+	// delivered to itself at a named hook point, through the real cli/app.go plumbing
+	if bin := os.Getenv("VERIF_CSVQ_BIN"); bin != "" && Sub(c.Seed, "real").Bool(0.25) {
+		r := Sub(c.Seed, "realsig")
+		p := r.Intn(len(sc.Procs))
+		pts := []string{"cf.rlock.check", "cf.rlock.create", "cf.lock.create", "cf.lock.recheck", "h.open.read", "h.open.update", "h.opened", "cf.temp.create",
+			"load.prod.row", "load.cons.recv", "gm.run.row", "eval.seq.row", "tx.commit.truncate", "tx.commit.write", "tx.commit.swap", "h.commit.rename",
+			"cf.close.unlock", "cf.close.remove", "h.release.unlock", "h.released", "tx.commit.done", "h.create.file"}
+		spec := fmt.Sprintf("%s#%d:%s", pts[r.Intn(len(pts))], 1+r.Intn(3), r.PickS("INT", "TERM", "QUIT"))
+		dir, code, stderr, err := realSignalRun(bin, sc, p, spec)
+		o.RealProc++
+		if err != nil {
+			o.viol(prop, "termination", "real-process:"+errClass(err.Error()), err.Error())
+		} else {
+			o.Stats.probe("real-signal-run")
+			if code >= 128 {
+				o.Stats.probe("real-signal-delivered")
+			}
+			for _, n := range dir.Names() {
+				if IsControlFile(n) {
+					o.viol(prop, "control-files", "real-leftover:"+ctlKind(n),
+						fmt.Sprintf("real csvq process (program of p%d, signal plan %s, exit %d) left %s behind; stderr: %s", p, spec, code, n, firstLine(stderr)))
+				}
+			}
+			if meta.Kind == "readonly" {
+				for _, f := range sc.Files {
+					if got, ok := dir[f.Name]; !ok || got.Data != f.Content {
+						o.viol(prop, "read-only", "real-readonly-changed", fmt.Sprintf("real csvq process changed %s although the program only reads (signal plan %s)", f.Name, spec))
+					}
+				}
+			}
+		}
+	}
 	o.Sample = map[string]interface{}{"seed": c.Seed, "kind": meta.Kind, "procs": programs(sc), "cancels": sc.Cancels, "faults": sc.Faults,
 		"strategy": sc.Sched.Strategy, "outputs_natural": outputs(resA), "outputs_injected": outputs(resB), "final": resB.Final.Names()}
 	return o
@@ -347,4 +384,45 @@ func outputsShort(res *RunResult) []string {
 		l = append(l, fmt.Sprintf("p%d exit=%d %s", i, p.ExitCode, firstLine(p.ErrText)))
 	}
 	return l
+}
+
+// realSignalRun runs the program of process p alone in the real binary with a
+// VERIF_PLAN that makes it signal itself at a hook point.
+func realSignalRun(bin string, sc *Scenario, p int, spec string) (DirState, int, string, error) {
+	setupBase()
+	dir, err := os.MkdirTemp(BaseDir, "real11-")
+	if err != nil {
+		return nil, 0, "", err
+	}
+	defer os.RemoveAll(dir)
+	if err := writeFiles(dir, sc.Files); err != nil {
+		return nil, 0, "", err
+	}
+	plan, _ := json.Marshal(map[string]string{"signal": spec})
+	cmd := exec.Command(bin, "--repository", dir, "--quiet", "--cpu", "1", "--format", "CSV", "--wait-timeout", "1", sc.Procs[p].Program)
+	cmd.Env = append(os.Environ(), "VERIF_PLAN="+string(plan))
+	cmd.Dir = filepath.Join(BaseDir, "cwd")
+	var stderr bytes.Buffer
+	cmd.Stderr = &stderr
+	done := make(chan error, 1)
+	if err := cmd.Start(); err != nil {
+		return nil, 0, "", err
+	}
+	go func() { done <- cmd.Wait() }()
+	select {
+	case err := <-done:
+		code := 0
+		if ee, ok := err.(*exec.ExitError); ok {
+			code = ee.ExitCode()
+			if code < 0 {
+				return nil, 0, stderr.String(), fmt.Errorf("real process was killed by the signal instead of handling it (plan %s): %v", spec, err)
+			}
+		} else if err != nil {
+			return nil, 0, stderr.String(), err
+		}
+		return SnapshotDir(dir), code, stderr.String(), nil
+	case <-time.After(60 * time.Second):
+		_ = cmd.Process.Kill()
+		return nil, 0, stderr.String(), fmt.Errorf("real process did not terminate within 60 s after plan %s", spec)
+	}
 }
